@@ -27,7 +27,7 @@ CHECKS = {
          "Trusted: hook zlink_verif_small_buf only changes the constant. Sizes in [limit, limit+256] are left free. Single frames only (a burst of small frames coalescing beyond the limit is outside the statement).", "4 C17"),
  "C08": ("zcheck", "stateless model checking of Server::run (DFS by re-execution over event histories: connects, bursts, cuts, short reads, delayed polls) against a per-connection sequential reference model",
          "Every execution drives a real Server over a scripted listener/transport poll by poll; after every poll-to-quiescence each connection's output and the service's call log are compared with the model (one reply or error per non-oneway call, nothing for oneway, in order, only on that connection); the server future must stay pending and keep accepting.",
-         "Trusted: the test service's replies depend only on the call. Bounded: <=3/4 connections, <=5/6 calls in total, <=8/9 events, bursts from an 8-entry alphabet, <=2/3 deviations.", "4 C08"),
+         "Trusted: the test service's replies depend only on the call. Bounded: <=3/4 connections, <=5/6 calls in total, <=8/9 events, bursts from a 9-entry alphabet (plain, oneway, failing, oneway failing, oneway answered with a stream, pipelined mixes), <=2/3 deviations.", "4 C08"),
  "C09": ("zcheck", "stateless model checking of Server::run with a fault event (8 kinds) enabled at every position of every history",
          "The C08 space plus fault events on any connection at any point: garbage frame, truncated frame + EOF, EOF mid-burst, EOF, read error, write error, unknown method, wrong parameter types, an unterminated frame beyond the buffer limit (also while a stream is open). Healthy connections must match their model exactly, the server must keep running and serve a fresh client afterwards.",
          "Faulty connections are only prefix-checked (or unconstrained after an undecodable frame). Built with the buffer limit lowered to 4096 bytes (hook zlink_verif_small_buf) so that an oversized frame is an affordable fault. Bounded: <=3/4 connections, <=4/5 calls, <=8/9 events, <=2 faults.", "4 C09"),
@@ -40,12 +40,12 @@ CHECKS = {
  "C03": ("zcheck", "exhaustive enumeration of serializer inputs (complete sweeps of all Unicode scalars / small ints / structured wide sets / f32 bit patterns, DFS over all bounded value trees that drive every Serializer method, every output-buffer length) compared with serde_json",
          "The real json_ser::to_slice (hook re-export) and the public send path are run on every enumerated value; equality with serde_json::to_vec driven by the same Serialize impl; refusal rules for map-key kinds; BufferTooSmall exactly below the encoding's length; every initial fill level of the send buffer.",
          "Trusted: serde_json as reference. Unbounded domains (f64, 128-bit ints, strings) are covered by complete structured subsets; the seeded supplement on top is sampling and labelled so in the evidence.", "4 C03"),
- "C04": ("zcheck", "complete enumeration of a finite product (reply frames x continues x member orders x expected parameter types x error types x receive path), each case one execution of the real receive_reply / call_method",
-         "373 reply frames (all shapes the statement names, incl. error replies whose parameters fit the expected success type) x 5 parameter types x 3 error types x 2 paths; the oracle classifies the frame from its JSON text alone.",
+ "C04": ("zcheck", "complete enumeration of a finite product (reply frames x continues x member orders x frame sizes beyond 1/4/8/18 buffer steps x expected parameter types x error types x receive path), each case one execution of the real receive_reply / call_method",
+         "373 base reply frames (all shapes the statement names, incl. error replies whose parameters fit the expected success type), each also bulked up to 300/1100/2100/4700 bytes in up to four meaning-preserving ways (whitespace, unknown member in front / at the end, long string parameter): 5485 frames x 5 parameter types x 3 error types x 3 paths (receive_reply, call_method, receive_reply as the second frame of one arrival); the oracle classifies the frame from its JSON text alone.",
          "Trusted: serde_json for `this frame decodes as that type`. The proxy path is covered by C12's corpus.", "4 C04"),
  "C05": ("zcheck", "complete enumeration of finite products (flag sets x member permutations x method types; error values x member orders x parameter spellings; reply shapes; no-parameter spellings at three call sites), each case executed against the real encoders/decoders",
          "Calls are encoded through zlink's own serializer and serde_json and compared with JSON built structurally from the value, decoded back, and decoded from every member order with every flag assignment and an unknown member (a capturing method type proves flags are hidden and other members passed through); derived and library error enums, Reply<T>, unit-output proxy methods and GetInfo with parameters absent / null / {}.",
-         "Trusted: serde_json as JSON parser. The error-enum corpus is hand-written (3 types, 17 values); a generated corpus is part of C12's crate.", "4 C05"),
+         "Trusted: serde_json as JSON parser. The error-enum corpus is hand-written (4 types incl. variant-level renames with near-miss spellings, 22 values, 11 names that must not decode); a generated corpus is part of C15's crate.", "4 C05"),
  "C13": ("zcheck", "exhaustive enumeration of parser inputs: DFS over all bounded reference trees x layouts (positives), every single mutation of such texts and every short token string (negatives), each parsed by the real parser and judged by a three-valued reference recogniser written from the grammar",
          "Must-accept texts must parse to exactly the denoted tree (members in source order within kind, names, types, comments); must-reject texts must be rejected; texts derivable only with comments/layout the statement does not name may go either way but an accepted tree must still equal the denoted one; a panic is a violation.",
          "Trusted: the harness's reading of the published grammar (unit-tested reference recogniser). Bounded: <=2/3 members, <=2 fields per list, <=2/3 wrapper or inline type nodes per interface, token strings <=4/5. The seeded byte-soup supplement is sampling and labelled so.", "4 C13"),
